@@ -142,6 +142,8 @@ func (m *Machine) caller(i int) sim.AccountKey {
 	return m.W.Gateway
 }
 
+func simStakerID(addr common.Address, lz uint64) string { return sim.StakerID(addr, lz) }
+
 func amt(s string) *big.Int {
 	v, ok := new(big.Int).SetString(s, 10)
 	if !ok {
